@@ -3092,12 +3092,41 @@ let session_ldap_version =
 (** val rx_attribute : rx **)
 
 let rx_attribute =
-  Nul
+  Cat ((Alt ((Cat ((Chr (false, (((Npos (XI (XO (XO (XO (XO (XI XH))))))),
+    (Npos (XO (XI (XO (XI (XI (XI XH)))))))) :: (((Npos (XI (XO (XO (XO (XO
+    (XO XH))))))), (Npos (XO (XI (XO (XI (XI (XO XH)))))))) :: [])))), (Star
+    (Chr (false, (((Npos (XI (XO (XO (XO (XO (XI XH))))))), (Npos (XO (XI (XO
+    (XI (XI (XI XH)))))))) :: (((Npos (XI (XO (XO (XO (XO (XO XH))))))),
+    (Npos (XO (XI (XO (XI (XI (XO XH)))))))) :: (((Npos (XO (XO (XO (XO (XI
+    XH)))))), (Npos (XI (XO (XO (XI (XI XH))))))) :: (((Npos (XI (XO (XI (XI
+    (XO XH)))))), (Npos (XI (XO (XI (XI (XO XH))))))) :: []))))))))), (Cat
+    ((Alt ((Chr (false, (((Npos (XO (XO (XO (XO (XI XH)))))), (Npos (XO (XO
+    (XO (XO (XI XH))))))) :: []))), (Cat ((Chr (false, (((Npos (XI (XO (XO
+    (XO (XI XH)))))), (Npos (XI (XO (XO (XI (XI XH))))))) :: []))), (Star
+    (Chr (false, (((Npos (XO (XO (XO (XO (XI XH)))))), (Npos (XI (XO (XO (XI
+    (XI XH))))))) :: [])))))))), (Star (Cat ((Chr (false, (((Npos (XO (XI (XI
+    (XI (XO XH)))))), (Npos (XO (XI (XI (XI (XO XH))))))) :: []))), (Alt
+    ((Chr (false, (((Npos (XO (XO (XO (XO (XI XH)))))), (Npos (XO (XO (XO (XO
+    (XI XH))))))) :: []))), (Cat ((Chr (false, (((Npos (XI (XO (XO (XO (XI
+    XH)))))), (Npos (XI (XO (XO (XI (XI XH))))))) :: []))), (Star (Chr
+    (false, (((Npos (XO (XO (XO (XO (XI XH)))))), (Npos (XI (XO (XO (XI (XI
+    XH))))))) :: []))))))))))))))), (Star (Cat ((Chr (false, (((Npos (XI (XI
+    (XO (XI (XI XH)))))), (Npos (XI (XI (XO (XI (XI XH))))))) :: []))), (Cat
+    ((Chr (false, (((Npos (XI (XO (XO (XO (XO (XI XH))))))), (Npos (XO (XI
+    (XO (XI (XI (XI XH)))))))) :: (((Npos (XI (XO (XO (XO (XO (XO XH))))))),
+    (Npos (XO (XI (XO (XI (XI (XO XH)))))))) :: (((Npos (XO (XO (XO (XO (XI
+    XH)))))), (Npos (XI (XO (XO (XI (XI XH))))))) :: (((Npos (XI (XO (XI (XI
+    (XO XH)))))), (Npos (XI (XO (XI (XI (XO XH))))))) :: [])))))), (Star (Chr
+    (false, (((Npos (XI (XO (XO (XO (XO (XI XH))))))), (Npos (XO (XI (XO (XI
+    (XI (XI XH)))))))) :: (((Npos (XI (XO (XO (XO (XO (XO XH))))))), (Npos
+    (XO (XI (XO (XI (XI (XO XH)))))))) :: (((Npos (XO (XO (XO (XO (XI
+    XH)))))), (Npos (XI (XO (XO (XI (XI XH))))))) :: (((Npos (XI (XO (XI (XI
+    (XO XH)))))), (Npos (XI (XO (XI (XI (XO XH))))))) :: [])))))))))))))
 
 (** val rx_attribute_end : end_anchor **)
 
 let rx_attribute_end =
-  NoEnd
+  EndZ
 
 (** val rx_attribute_ngroups : nat **)
 
@@ -14044,10 +14073,16 @@ let exts_text e =
 let seg_kw_g a kw b payload =
   app (sp (S a)) (app kw (app (sp (S b)) payload))
 
-(** val ext_den : ext_cst -> ustr * ustr list **)
+(** val ext_upd :
+    (ustr * ustr list) list -> ext_cst -> (ustr * ustr list) list **)
 
-let ext_den x =
-  (x.e_key, (qdstrings_den x.e_vals))
+let ext_upd d x =
+  dict_set x.e_key (qdstrings_den x.e_vals) d
+
+(** val exts_den : ext_cst list -> (ustr * ustr list) list **)
+
+let exts_den e =
+  fold_left ext_upd e []
 
 type 'a part = ((nat * nat) * 'a) option
 
@@ -14153,7 +14188,7 @@ let oc_denote c =
     (match c.oc_ckind with
      | Some p -> let (_, k) = p in k
      | None -> Npos XH); oc_must = (part_den oids_den c.oc_cmust); oc_may =
-    (part_den oids_den c.oc_cmay); oc_ext = (map ext_den c.oc_cext) }
+    (part_den oids_den c.oc_cmay); oc_ext = (exts_den c.oc_cext) }
 
 type dcr_cst = { dc_h : head_cst; dc_caux : oids_cst part;
                  dc_cmust : oids_cst part; dc_cmay : oids_cst part;
@@ -14202,7 +14237,7 @@ let dcr_denote c =
      | Some _ -> true
      | None -> false); dc_aux = (part_den oids_den c.dc_caux); dc_must =
     (part_den oids_den c.dc_cmust); dc_may = (part_den oids_den c.dc_cmay);
-    dc_not = (part_den oids_den c.dc_cnot); dc_ext = (map ext_den c.dc_cext) }
+    dc_not = (part_den oids_den c.dc_cnot); dc_ext = (exts_den c.dc_cext) }
 
 type syn_cst =
 | SynPlain of n list * z option
@@ -14338,7 +14373,7 @@ let at_denote c =
     (flag_on c.at_ccol); at_no_user_mod = (flag_on c.at_cnum); at_usage =
     (match c.at_cusage with
      | Some p -> let (_, u) = p in u
-     | None -> N0); at_ext = (map ext_den c.at_cext) }
+     | None -> N0); at_ext = (exts_den c.at_cext) }
 
 (** val part_b : ('a1 -> bool) -> 'a1 part -> bool **)
 
@@ -14388,7 +14423,7 @@ let extc_b x =
 (** val exts_b : ext_cst list -> bool **)
 
 let exts_b e =
-  (&&) (forallb extc_b e) (nodup_b (map (fun e0 -> e0.e_key) e))
+  forallb extc_b e
 
 (** val head_b : head_cst -> bool **)
 
